@@ -315,7 +315,8 @@ func cmdCheck(args []string) int {
 		all = true
 	}
 	prelude := s.pre
-	outDir := filepath.Join(*verif, "out", "smt", *prop)
+	// GOVC_RUN: a suffix that keeps the scratch files of concurrent runs of the same property apart
+	outDir := filepath.Join(*verif, "out", "smt"+os.Getenv("GOVC_RUN"), *prop)
 	os.RemoveAll(outDir)
 	// axioms-consistent: the quantified prelude used by this property must not be refutable on its own
 	{
@@ -481,7 +482,7 @@ func cmdCheck(args []string) int {
 			fmt.Printf("  %-8s %-7s %6.2fs %s :: %s  [%s] %s\n", r.Verdict, r.Solver, r.Time, r.Func, r.Name, r.Pos, r.Info)
 		}
 	}
-	replayDir := filepath.Join(*verif, "out", "replay", *prop)
+	replayDir := filepath.Join(*verif, "out", "replay"+os.Getenv("GOVC_RUN"), *prop)
 	os.MkdirAll(replayDir, 0o755)
 	kf := loadKnownFindings(*verif)
 	failedFn := map[string]bool{}
